@@ -284,6 +284,20 @@ def r182(facts, res):
     for p in to_skip:
         got = dict.fromkeys(need, False)
         for c, v in p.conds:
+            # see through `?` and Result::ok(): discr(branch(x)) == Continue, discr(ok(r)) == Some say that the call inside succeeded
+            if c[0] == 'discr' and isinstance(v, int):
+                t0, succ = c[1], None
+                for _ in range(4):
+                    if t0[0] == 'call' and strip_generics(t0[1]).endswith('::branch') and t0[2]:
+                        succ = (v == 0) if succ is None else succ
+                        t0 = strip_ref(t0[2][0])
+                    elif t0[0] == 'call' and strip_generics(t0[1]).endswith('Result::ok') and t0[2]:
+                        succ = (v == 1) if succ is None else succ
+                        t0 = strip_ref(t0[2][0])
+                    else:
+                        break
+                if succ is True and t0 is not c[1] and t0[0] == 'call':
+                    c, v = ('discr', t0), 0
             if c[0] == 'discr' and c[1][0] == 'call' and strip_generics(c[1][1]).endswith('fs::metadata'):
                 # which path?  find the call event
                 for e in p.calls(name='metadata'):
